@@ -11,7 +11,8 @@
     (d <= 5); inv_model over Q vs x.inv() on Fraction operands incl. the ZeroDivisionError outcome (d <= 5);
     shirokov (adjugate, denominator) over Q vs codegen_shirokov_inv(x, symbolic=True) on Fraction operands
     (d = 6, very sparse; both sides run WITHOUT the symbolic zero-filter, so they agree even where the
-    unfiltered loop does not reach its break)."""
+    unfiltered loop does not reach its break); AdditionChains(limit).minimal_chains entry by entry in
+    dictionary order."""
 import warnings, time, math
 from fractions import Fraction as Fr
 import kv, algs, opcorr as oc
@@ -342,6 +343,15 @@ def run(R, tier):
                                            'impl': [[(k, str(v)) for k, v in aobs], str(den)]}})
                 except Exception as e:  # noqa
                     R.notes.append(f'codegen_shirokov_inv on numbers raised {type(e).__name__}: {e} (not part of the public path)')
+    # AdditionChains(limit).minimal_chains, dictionary order included (drives power_supply)
+    from kingdon.codegen import AdditionChains
+    for limit in (1, 2, 3, 8, 16, 32) if quick else (1, 2, 3, 4, 5, 7, 8, 12, 16, 24, 32, 64):
+        ch = AdditionChains(limit).minimal_chains
+        term = kv.blist(kv.pair(kv.Z(k), kv.zlist(v)) for k, v in ch.items())
+        cases.append({'check': f'match minimal_chains {kv.Z(limit)} with Ok c => list_eqb (pair_eqb Z.eqb (list_eqb Z.eqb)) c {term} | Err _ => false end',
+                      'show': f'minimal_chains {kv.Z(limit)}', 'defs': [],
+                      'meta': {'kind': 'chains', 'spec': {'sig': []}, 'x': limit, 'impl': {k: list(v) for k, v in ch.items()}}})
+        R.count('tie=chains')
     R.count('model-tie-cases', len(cases))
     bad, shown = kv.run_cases('C07', cases, imports='Model.All Model.Inverse', prelude='From Coq Require Import QArith.\nOpen Scope Z_scope.',
                               shard=60)
